@@ -202,6 +202,13 @@ func (g *Gen) Block(maxOps, maxOrd int) []Op {
 	if g.R.Chance(4, 5) && n == 0 {
 		n = 1
 	}
+	if g.R.Chance(1, 6) {
+		// long blocks with many ties: library sorts switch algorithm above a dozen elements (stability!)
+		n = g.R.Range(13, 40)
+		if maxOrd > 2 && g.R.Bool() {
+			maxOrd = 2
+		}
+	}
 	ops := make([]Op, n)
 	for i := range ops {
 		ops[i] = g.Op(maxOrd)
